@@ -33,9 +33,22 @@ func Verif_H15BS() {
 	// digests: identity multihashes, bucket byte from two values, rest symbolic, pairwise distinct
 	mhs := make([][]byte, K)
 	for i := range mhs {
-		d := vrt.Bytes("digest", L)
+		// the first bytes of the digest are symbolic, the rest (long digests) is a fixed pad
+		SL := L
+		if SL > 4 {
+			SL = 4
+		}
+		d := vrt.Bytes("digest", SL)
+		for j := SL; j < L; j++ {
+			d = append(d, byte(0x40+j%7))
+		}
 		vrt.Assume(d[0] == []byte{0x00, 0xA5}[vrt.Choose("bucket", 2)])
-		mhs[i] = append([]byte{0x00, byte(L)}, d...)
+		// identity multihash: code 0, length as a varint (two bytes from 128 on), digest
+		hdr := []byte{0x00, byte(L)}
+		if L >= 128 {
+			hdr = []byte{0x00, byte(L&0x7f) | 0x80, byte(L >> 7)}
+		}
+		mhs[i] = append(hdr, d...)
 		for j := 0; j < i; j++ {
 			vrt.Assume(!bytes.Equal(mhs[i], mhs[j]))
 		}
@@ -53,7 +66,15 @@ func Verif_H15BS() {
 		if vrt.Choose("empty-block", 2) == 1 {
 			return []byte{}
 		}
-		return vrt.Bytes("blockdata", L)
+		SL := L
+		if SL > 4 {
+			SL = 4
+		}
+		data := vrt.Bytes("blockdata", SL)
+		for j := SL; j < L; j++ {
+			data = append(data, byte(0x40+j%7))
+		}
+		return data
 	}
 	// cancelled contexts are exercised by a dedicated operation kind (case 7) instead of a
 	// two-way choice inside every operation
@@ -77,7 +98,7 @@ func Verif_H15BS() {
 			vrt.Assert(err != nil && isNotFound(err), "get-unknown-cid-is-ipld-not-found", "where", where)
 			return
 		}
-		honest := bytes.Equal(m.data[i], mhs[i][2:])
+		honest := bytes.Equal(m.data[i], mhs[i][len(mhs[i])-L:])
 		if hashOnRead && !honest {
 			vrt.Assert(err == blocks.ErrWrongHash, "hash-on-read-rejects-wrong-bytes", "where", where)
 			return
